@@ -1,6 +1,7 @@
 import MV.Driver.Stream
 import MV.Driver.Graph
 import MV.Driver.MWU
+import MV.Driver.Discrete
 open MV
 
 /-- ops whose handler models panics itself -/
@@ -11,6 +12,8 @@ def dispatchOp (ins outs : List J) : Verdict :=
   | .atom "st" :: rest => Stream.handle rest outs
   | .atom "ud" :: rest => MWU.handleUD rest outs
   | .atom "mwu" :: rest => MWU.handleMWU rest outs
+  | .atom "bin" :: rest => Discrete.handleBin rest outs
+  | .atom "hyp" :: rest => Discrete.handleHyp rest outs
   | .atom op :: rest =>
     if Graph.ops.contains op then Graph.handle op rest outs
     else .badOp s!"unknown op {op}"
